@@ -225,3 +225,23 @@ def set_tracked_samples(c):
     c.ensures(lambda: z3.Or(c.result == 0, c.result == E.TSK_ERR_NODE_OUT_OF_BOUNDS, c.result == E.TSK_ERR_BAD_SAMPLES,
                             c.result == E.TSK_ERR_DUPLICATE_SAMPLE, c.result == E.TSK_ERR_UNSUPPORTED_OPERATION), "codes")
     c.assigns(h.get(self_, "num_tracked_samples"))
+
+
+@contract("trees.c", "tsk_tree_get_time", ["self", "u", "t"])
+def get_time(c):
+    """the virtual root is infinitely old; any other id must be a row of the node table"""
+    self_, h, E, n, par = pre(c, need_time=True)
+    u, outp = c.arg("u"), out_cell(c, h, "t")
+    c.ensures(lambda: (c.result == 0) == z3.And(0 <= u, u <= n), "accepted_iff_node_or_virtual_root")
+    c.ensures(lambda: z3.Or(c.result == 0, c.result == E.TSK_ERR_NODE_OUT_OF_BOUNDS), "codes")
+    c.assigns(outp)
+
+
+@contract("trees.c", "tsk_tree_get_num_samples", ["self", "u", "num_samples"])
+def get_num_samples(c):
+    self_, h, E, n, par = pre(c)
+    u, outp = c.arg("u"), out_cell(c, h, "num_samples")
+    c.requires(z3.Not(flag(h.get(self_, "options"), E.TSK_NO_SAMPLE_COUNTS)), "sample_counts_enabled")
+    id_rule(c, u, n, E)
+    c.ensures(lambda: z3.Implies(c.result == 0, c.new.get(outp) == h.arr(h.get(self_, "num_samples"))[u]), "value")
+    c.assigns(outp)
